@@ -139,9 +139,13 @@ pub(super) fn modpow(x: &BigUint, exponent: &BigUint, modulus: &BigUint) -> BigU
 
     if modulus.is_odd() {
         // For an odd modulus, we can use Montgomery multiplication in base 2^32.
+        #[cfg(num_bigint_verif)]
+        crate::verif_probe::hit(crate::verif_probe::Probe::MODPOW_ODD);
         monty_modpow(x, exponent, modulus)
     } else {
         // Otherwise do basically the same as `num::pow`, but with a modulus.
+        #[cfg(num_bigint_verif)]
+        crate::verif_probe::hit(crate::verif_probe::Probe::MODPOW_EVEN);
         plain_modpow(x, &exponent.data, modulus)
     }
 }
@@ -174,6 +178,8 @@ fn plain_modpow(base: &BigUint, exp_data: &[BigDigit], modulus: &BigUint) -> Big
 
     let mut exp_iter = exp_data[i + 1..].iter();
     if exp_iter.len() == 0 && r.is_one() {
+        #[cfg(num_bigint_verif)]
+        crate::verif_probe::hit(crate::verif_probe::Probe::PLAIN_EARLY_EXIT);
         return base;
     }
 
